@@ -389,6 +389,7 @@ def h_read_decimal(m):
     r = m.mod(LR)
     if m.sym:
         r.decimal_context = tm.SContext()
+        r.Context = tm.SContext
     schema = {"type": "bytes", "logicalType": "decimal", "precision": prec, "scale": scale}
     back = r.read_decimal(data, schema, None)
     if m.sym:
@@ -425,6 +426,7 @@ def h_decimal_roundtrip(m):
     r = m.mod(LR)
     if m.sym:
         r.decimal_context = tm.SContext()
+        r.Context = tm.SContext
     back = r.read_decimal(b, schema, None)
     if m.sym:
         e_in = core.concretize(exp)
